@@ -91,9 +91,9 @@ Proof.
     - rewrite get_remove_same. apply gamma_top.
     - rewrite get_remove_other by auto. apply G. }
   destruct (is_top v); auto. destruct (is_top (get m x)); auto.
-  simpl. intros k. simpl. destruct (N.eqb_spec x k).
-  - subst. apply ijoin_sound_l. apply G.
-  - rewrite get_remove_other by auto. apply G.
+  simpl. intros k. destruct (N.eq_dec k x) as [->|N].
+  - apply get_put_same_sound. apply ijoin_sound_l. apply G.
+  - rewrite get_put_other by auto. apply G.
 Qed.
 
 Lemma e_join_key_sound_new e s x v z : genv e s -> gamma v z -> genv (e_join_key e x v) (upd s x z).
@@ -101,9 +101,9 @@ Proof.
   destruct e as [|m]; simpl; [tauto|]. intros G Gv. rewrite (gamma_not_bot _ _ Gv).
   pose proof (gmap_remove m s x z G) as R.
   destruct (is_top v); auto. destruct (is_top (get m x)); auto.
-  simpl. intros k. simpl. destruct (N.eqb_spec x k).
-  - subst. rewrite upd_same. apply ijoin_sound_r. auto.
-  - rewrite upd_other by auto. rewrite get_remove_other by auto. apply G.
+  simpl. intros k. destruct (N.eq_dec k x) as [->|N].
+  - rewrite upd_same. apply get_put_same_sound. apply ijoin_sound_r. auto.
+  - rewrite upd_other by auto. rewrite get_put_other by auto. apply G.
 Qed.
 
 (* ---- pointwise merges ---- *)
